@@ -145,7 +145,9 @@ def compute(
                     continue
                 seen.add(ss)
 
-                freq[pos][ss.id] += weight
+                # synsets inferred through an expand lexicon have no weight entry
+                if ss.id in freq[pos]:
+                    freq[pos][ss.id] += weight
 
                 if ss not in hypernym_cache:
                     hypernym_cache[ss] = ss.hypernyms()
